@@ -25,3 +25,7 @@ pub mod systematic;
 
 mod linalg;
 mod util;
+
+#[cfg(ldpc_toolbox_verif)]
+#[doc(hidden)]
+pub mod verif_seam;
